@@ -23,15 +23,15 @@ var specs = []CheckSpec{
 	{
 		ID: "C03", Pkg: "txtar",
 		Harnesses: []HarnessSpec{
-			{Fn: "VerifC03Total", Quick: map[string]int{"N": 9}, Thorough: map[string]int{"N": 11}, Witness: []string{"parsed", "one-file"}, Native: true},
-			{Fn: "VerifC03Ref", Quick: map[string]int{"N": 9}, Thorough: map[string]int{"N": 11}, Witness: []string{"parsed", "ref-one-file"}, Native: true},
+			{Fn: "VerifC03Total", Quick: map[string]int{"N": 9}, Thorough: map[string]int{"N": 12}, Witness: []string{"parsed", "one-file"}, Native: true},
+			{Fn: "VerifC03Ref", Quick: map[string]int{"N": 9}, Thorough: map[string]int{"N": 12}, Witness: []string{"parsed", "ref-one-file"}, Native: true},
 			{Fn: "VerifC03WellFormed", Quick: map[string]int{"K": 2, "L": 2, "NL": 1}, Thorough: map[string]int{"K": 2, "L": 3, "NL": 2}, Witness: []string{"two-files"}, Native: true},
 			{Fn: "VerifC03WellFormedBig", Quick: map[string]int{"L": 8}, Thorough: map[string]int{"L": 9}, Witness: []string{"body-long-enough-for-marker"}, Native: true},
-			{Fn: "VerifC03CRLF", Quick: map[string]int{"N": 9}, Thorough: map[string]int{"N": 11}, Witness: []string{"marker-line-chosen", "eof-cr", "eof-crlf"}, Native: true},
+			{Fn: "VerifC03CRLF", Quick: map[string]int{"N": 9}, Thorough: map[string]int{"N": 13}, Witness: []string{"marker-line-chosen", "eof-cr", "eof-crlf"}, Native: true},
 		},
 		Bounds: map[string]string{
 			"quick":    "all byte strings of length <= 9 (every byte value); well-formed archives with <= 2 files (bodies <= 2 bytes, 1-byte names) and single-file archives with bodies <= 8 bytes (ASCII)",
-			"thorough": "all byte strings of length <= 11; well-formed archives with <= 2 files, bodies <= 3 bytes, names <= 2 bytes, and single-file archives with bodies <= 9 bytes",
+			"thorough": "all byte strings of length <= 12; well-formed archives with <= 2 files, bodies <= 3 bytes, names <= 2 bytes, and single-file archives with bodies <= 9 bytes",
 		},
 		Assumptions: commonAssumptions,
 		Outside:     []string{"inputs longer than the bound", "ParseFile's os.ReadFile"},
@@ -39,13 +39,13 @@ var specs = []CheckSpec{
 	{
 		ID: "C14", Pkg: "txtar",
 		Harnesses: []HarnessSpec{
-			{Fn: "VerifC14NeedsQuote", Quick: map[string]int{"N": 9}, Thorough: map[string]int{"N": 11}, Witness: []string{"needs-quote", "body-changes-parse"}, Native: true},
-			{Fn: "VerifC14Quote", Quick: map[string]int{"N": 5}, Thorough: map[string]int{"N": 7}, Witness: []string{"quoted", "quote-refused"}, Native: true},
-			{Fn: "VerifC14QuoteMarker", Quick: map[string]int{"N": 9}, Thorough: map[string]int{"N": 10}, Witness: []string{"quoted-a-marker"}, Native: true},
+			{Fn: "VerifC14NeedsQuote", Quick: map[string]int{"N": 9}, Thorough: map[string]int{"N": 12}, Witness: []string{"needs-quote", "body-changes-parse"}, Native: true},
+			{Fn: "VerifC14Quote", Quick: map[string]int{"N": 5}, Thorough: map[string]int{"N": 8}, Witness: []string{"quoted", "quote-refused"}, Native: true},
+			{Fn: "VerifC14QuoteMarker", Quick: map[string]int{"N": 9}, Thorough: map[string]int{"N": 12}, Witness: []string{"quoted-a-marker"}, Native: true},
 		},
 		Bounds: map[string]string{
 			"quick":    "NeedsQuote: all bodies of <= 9 bytes; Quote/Unquote: all bodies of <= 5 bytes, and all newline-terminated ASCII bodies of <= 9 bytes that contain a marker line",
-			"thorough": "NeedsQuote: all bodies of <= 11 bytes; Quote/Unquote: <= 7 bytes; marker bodies <= 10 bytes",
+			"thorough": "NeedsQuote: all bodies of <= 12 bytes; Quote/Unquote: <= 8 bytes; marker bodies <= 12 bytes",
 		},
 		Assumptions: commonAssumptions,
 		Outside:     []string{"bodies longer than the bound"},
@@ -53,13 +53,13 @@ var specs = []CheckSpec{
 	{
 		ID: "C08", Pkg: "diff",
 		Harnesses: []HarnessSpec{
-			{Fn: "VerifC08Small", Quick: map[string]int{"P": 3, "Q": 3}, Thorough: map[string]int{"P": 4, "Q": 4}, Witness: []string{"identical", "hunks-parsed"}, Native: true},
+			{Fn: "VerifC08Small", Quick: map[string]int{"P": 3, "Q": 3}, Thorough: map[string]int{"P": 5, "Q": 4}, Witness: []string{"identical", "hunks-parsed"}, Native: true},
 			{Fn: "VerifC08AnchoredShort", Quick: map[string]int{"MLO": 3, "M": 5, "S": 1}, Thorough: map[string]int{"MLO": 1, "M": 5, "S": 1}, Witness: []string{"hunks-parsed"}, Native: true},
 			{Fn: "VerifC08Anchored", Quick: map[string]int{"MLO": 7, "M": 7, "S": 1}, Thorough: map[string]int{"MLO": 6, "M": 9, "S": 1}, Witness: []string{"multi-hunk", "hunks-parsed"}, Native: true},
 		},
 		Bounds: map[string]string{
 			"quick":    "all pairs of texts with <= 3 lines per side, each line one arbitrary byte (all equality patterns, with/without final newline per side); templates with 3..5 and with 7 common anchor lines and <= 1 arbitrary line before/after on each side (single- and multi-hunk output)",
-			"thorough": "<= 4 lines per side; 1..5 and 6..9 anchor lines",
+			"thorough": "<= 5 old and <= 4 new lines; 1..5 and 6..9 anchor lines",
 		},
 		Assumptions: append([]string{"lines are opaque to the algorithm (only equality and concatenation of whole lines): one symbolic byte per line stands for arbitrary line contents"}, commonAssumptions...),
 		Outside:     []string{"longer texts", "multi-byte line contents (spot-checked by the native suite only)", "decimal rendering inside fmt (concrete integers are rendered by the native fmt)"},
@@ -84,11 +84,11 @@ var specs = []CheckSpec{
 		Harnesses: []HarnessSpec{
 			{Fn: "VerifC18Slots", Quick: map[string]int{"PAIR": 1}, Thorough: map[string]int{"PAIR": 2}, Witness: []string{"bom", "several-imports"}, Native: true},
 			{Fn: "VerifC18Specs", Quick: map[string]int{"PL": 1}, Thorough: map[string]int{"PL": 2}, Witness: []string{"specs"}, Native: true},
-			{Fn: "VerifC18Arbitrary", Quick: map[string]int{"N": 4}, Thorough: map[string]int{"N": 5}, Witness: []string{"ran", "syntax-error", "nul"}, Native: true},
+			{Fn: "VerifC18Arbitrary", Quick: map[string]int{"N": 4}, Thorough: map[string]int{"N": 6}, Witness: []string{"ran", "syntax-error", "nul"}, Native: true},
 		},
 		Bounds: map[string]string{
 			"quick":    "valid files from 4 token skeletons (no import / single / group of two / single+group+empty group) x 5 declaration tails x optional BOM, with one separator slot at a time ranging over its full menu (blanks, semicolons, CRLF, // and /* */ comments with a symbolic body byte); all alias forms x raw/interpreted paths with <= 1 symbolic byte; arbitrary tails of <= 4 symbolic bytes after 5 prefixes, both reportSyntaxError values",
-			"thorough": "two separator slots vary simultaneously; paths with <= 2 symbolic bytes; arbitrary tails <= 5 bytes",
+			"thorough": "two separator slots vary simultaneously; paths with <= 2 symbolic bytes; arbitrary tails <= 6 bytes",
 		},
 		Assumptions: append([]string{"validity of generated files and the expected import list are cross-checked against go/parser (ImportsOnly) on every natively replayed path witness"}, commonAssumptions...),
 		Outside:     []string{"more than two simultaneously varying separators", "files whose import section is longer than the skeletons", "bufio buffer refills (inputs are far below 4096 bytes)"},
@@ -96,13 +96,13 @@ var specs = []CheckSpec{
 	{
 		ID: "C02", Pkg: "testscript",
 		Harnesses: []HarnessSpec{
-			{Fn: "VerifC02Split", Quick: map[string]int{"N": 6}, Thorough: map[string]int{"N": 8}, Witness: []string{"parsed", "two-words", "unterminated"}, Native: true},
-			{Fn: "VerifC02QuoteLaw", Quick: map[string]int{"K": 2, "W": 3}, Thorough: map[string]int{"K": 3, "W": 3}, Witness: []string{"quoted-parse"}, Native: true},
+			{Fn: "VerifC02Split", Quick: map[string]int{"N": 6}, Thorough: map[string]int{"N": 9}, Witness: []string{"parsed", "two-words", "unterminated"}, Native: true},
+			{Fn: "VerifC02QuoteLaw", Quick: map[string]int{"K": 2, "W": 3}, Thorough: map[string]int{"K": 3, "W": 4}, Witness: []string{"quoted-parse"}, Native: true},
 			{Fn: "VerifC02Expand", Quick: map[string]int{"H": 2, "VL": 2}, Thorough: map[string]int{"H": 3, "VL": 2}, Witness: []string{"expanded", "reassigned"}, Native: true},
 		},
 		Bounds: map[string]string{
 			"quick":    "all lines of <= 6 bytes without '$' or newline against a reference tokenizer; all lists of <= 2 words of <= 3 arbitrary bytes (no newline) quoted and re-parsed; all histories of <= 2 assignments (via Setenv or the env builtin) to {A,B,AB} with values of <= 2 arbitrary bytes, six reference forms ($K, ${K}, x$K/y, ${K}B, ${K@R}, '$K'$K)",
-			"thorough": "lines <= 8 bytes; <= 3 words; <= 3 assignments",
+			"thorough": "lines <= 9 bytes; <= 3 words of <= 4 bytes; <= 3 assignments",
 		},
 		Assumptions: append([]string{"${K@R}: 'matches exactly' is reduced to the contract of regexp.QuoteMeta (every metacharacter escaped), interpreted from its SSA; the regexp engine itself is not encoded", "programs see ts.env with os/exec's documented last-entry-wins rule"}, commonAssumptions...),
 		Outside:     []string{"Windows case folding of variable names", "malformed references such as ${ or $ at end of word (os.Expand's documented behaviour)", "the regexp matcher"},
@@ -128,13 +128,13 @@ var specs = []CheckSpec{
 	{
 		ID: "C12", Pkg: "cache",
 		Harnesses: []HarnessSpec{
-			{Fn: "VerifC12FileFault", Quick: map[string]int{"L": 2}, Thorough: map[string]int{"L": 3}, Witness: []string{"crash", "fault", "fault-hit", "put-reported-error", "overwrite-same-content", "overwrite-different-content", "after-getbytes-hit", "after-getbytes-miss", "after-getfile-hit"}},
-			{Fn: "VerifC12Reader", Quick: map[string]int{"L": 2}, Thorough: map[string]int{"L": 3}, Witness: []string{"reader-fails", "seek-fails", "second-pass-shorter", "second-pass-differs", "put-reported-error"}},
-			{Fn: "VerifC12PreDamaged", Quick: map[string]int{"L": 2}, Thorough: map[string]int{"L": 3}, Witness: []string{"repaired-predamaged"}},
+			{Fn: "VerifC12FileFault", Quick: map[string]int{"L": 2}, Thorough: map[string]int{"L": 4}, Witness: []string{"crash", "fault", "fault-hit", "put-reported-error", "overwrite-same-content", "overwrite-different-content", "after-getbytes-hit", "after-getbytes-miss", "after-getfile-hit"}},
+			{Fn: "VerifC12Reader", Quick: map[string]int{"L": 2}, Thorough: map[string]int{"L": 4}, Witness: []string{"reader-fails", "seek-fails", "second-pass-shorter", "second-pass-differs", "put-reported-error"}},
+			{Fn: "VerifC12PreDamaged", Quick: map[string]int{"L": 2}, Thorough: map[string]int{"L": 4}, Witness: []string{"repaired-predamaged"}},
 		},
 		Bounds: map[string]string{
 			"quick":    "Put of <= 2 symbolic bytes over three starting states (no entry / same content / different content) plus an unrelated complete entry; one crash point after any number of Put's file operations, or one failing file operation at any index (a failing write leaves any prefix for short buffers, representative prefixes incl. every field boundary for the 175-byte index entry); source reader failing at any offset in either pass, failing Seek, shorter or different second pass; pre-damaged output files of any length <= 3 with a crash at any point",
-			"thorough": "data <= 3 bytes",
+			"thorough": "data <= 4 bytes",
 		},
 		Stubs: []string{"as C05"},
 		Assumptions: append([]string{"a crash is modelled as: every file operation up to the crash point took full effect, none after it did (operations are atomic; a torn single write is the subject of C11)", "SHA-256 as injective pool-digest model (see C05)"}, commonAssumptions...),
@@ -156,12 +156,12 @@ var specs = []CheckSpec{
 	{
 		ID: "C06", Pkg: "lockedfile",
 		Harnesses: []HarnessSpec{
-			{Fn: "VerifC06OpenFile", Quick: map[string]int{"R": 2}, Thorough: map[string]int{"R": 4}, Witness: []string{"opened", "open-failed", "lock-failed", "write-lock", "read-lock", "truncated"}},
+			{Fn: "VerifC06OpenFile", Quick: map[string]int{"R": 2}, Thorough: map[string]int{"R": 8}, Witness: []string{"opened", "open-failed", "lock-failed", "write-lock", "read-lock", "truncated"}},
 			{Fn: "VerifC06API", Quick: map[string]int{}, Thorough: map[string]int{}, Witness: []string{"api", "mutex"}},
 		},
 		Bounds: map[string]string{
 			"quick":    "per-holder protocol: every flag word below 2^21 with a valid access mode (all other bits symbolic), file present or absent, 0..2 EINTR returns from flock followed by success or ENOLCK; all seven entry points (Open, Create, Edit, Read, Write, Transform, Mutex.Lock)",
-			"thorough": "0..4 EINTR returns",
+			"thorough": "0..8 EINTR returns",
 		},
 		Stubs: []string{"os.OpenFile, (*os.File).{Fd,Name,Stat,Truncate,Close,Read,WriteAt,ReadFrom}", "syscall.Flock: scripted results, every call recorded with its descriptor, mode and position in the operation log"},
 		Assumptions: append([]string{"assume-guarantee: Linux flock(2) grants LOCK_EX on an open file description only while no other description of the file holds a lock, LOCK_SH only while none holds LOCK_EX, and keeps the lock until LOCK_UN or the last close. The check establishes the per-holder obligations on the real code (right mode for every flag word, lock on the opened descriptor before any content access, returned File <=> lock granted and still held, failure paths close the descriptor, Close unlocks the same descriptor exactly once strictly before closing it); mutual exclusion across holders follows from these obligations and the kernel contract", "access mode 3 (O_WRONLY|O_RDWR) is not a valid access mode and is excluded"}, commonAssumptions...),
@@ -170,12 +170,13 @@ var specs = []CheckSpec{
 	{
 		ID: "C07", Pkg: "lockedfile",
 		Harnesses: []HarnessSpec{
-			{Fn: "VerifC07Sequential", Quick: map[string]int{"L": 3}, Thorough: map[string]int{"L": 5}, Witness: []string{"read", "write", "grow", "shrink"}},
-			{Fn: "VerifC07TransformFault", Quick: map[string]int{"L": 3}, Thorough: map[string]int{"L": 5}, Witness: []string{"user-fails", "write-step-fails", "truncate-fails", "close-fails"}},
+			{Fn: "VerifC07Sequential", Quick: map[string]int{"L": 3}, Thorough: map[string]int{"L": 8}, Witness: []string{"read", "write", "grow", "shrink"}},
+			{Fn: "VerifC07NothingBeforeLock", Quick: map[string]int{"L": 3}, Thorough: map[string]int{"L": 8}, Witness: []string{"write", "create"}},
+			{Fn: "VerifC07TransformFault", Quick: map[string]int{"L": 3}, Thorough: map[string]int{"L": 7}, Witness: []string{"user-fails", "write-step-fails", "truncate-fails", "close-fails"}},
 		},
 		Bounds: map[string]string{
-			"quick":    "old and new contents of <= 3 symbolic bytes each (every length relation); Read under arbitrary short reads; one failure at any file operation of Transform (a failing WriteAt leaves any prefix) or in the user function",
-			"thorough": "contents <= 5 bytes",
+			"quick":    "old and new contents of <= 3 symbolic bytes each (every length relation); Read under arbitrary short reads; one failure at any file operation of Transform (a failing WriteAt leaves any prefix) or in the user function; for Write, Create, Transform and OpenFile(O_TRUNC): the contents at the time the lock is requested are still the old contents",
+			"thorough": "contents <= 8 bytes (7 for the fault schedule)",
 		},
 		Stubs: []string{"as C06"},
 		Assumptions: append([]string{"linearizability across goroutines and processes is by assume-guarantee: C06 gives exclusion of writers and sharing among readers; this check establishes that each operation, run alone under its lock, reads or publishes exactly the complete contents and that every content access lies inside the held interval (asserted in C06's API harness); the two-phase-locking composition argument is stated, not mechanised"}, commonAssumptions...),
@@ -184,12 +185,12 @@ var specs = []CheckSpec{
 	{
 		ID: "C15", Pkg: "txtar",
 		Harnesses: []HarnessSpec{
-			{Fn: "VerifC15Write", Quick: map[string]int{"E": 1, "NL": 6}, Thorough: map[string]int{"E": 1, "NL": 8}, Witness: []string{"created", "written", "escaping-name"}},
+			{Fn: "VerifC15Write", Quick: map[string]int{"E": 1, "NL": 6}, Thorough: map[string]int{"E": 1, "NL": 9}, Witness: []string{"created", "written", "escaping-name"}},
 			{Fn: "VerifC15WriteTwo", Quick: map[string]int{"E": 2, "NL": 3}, Thorough: map[string]int{"E": 2, "NL": 4}, Witness: []string{"created", "written", "escaping-name"}},
 		},
 		Bounds: map[string]string{
 			"quick":    "txtar.Write of one entry whose name is any byte string of <= 6 bytes, and of two entries with names of <= 3 bytes, data of <= 1 symbolic byte, into an existing directory holding no file / a / a/b / b plus a file outside it",
-			"thorough": "names <= 8 bytes (one entry), <= 4 bytes (two entries)",
+			"thorough": "names <= 9 bytes (one entry), <= 4 bytes (two entries)",
 		},
 		Stubs: []string{"os.MkdirAll, os.OpenFile (O_CREATE|O_EXCL semantics), (*os.File).{Write,Close} on the vfs model"},
 		Assumptions: append([]string{"the target directory exists and is a directory (the property quantifies over directories with pre-existing files); O_EXCL on an existing path fails", "lexical containment: no symbolic links in the model"}, commonAssumptions...),
